@@ -136,15 +136,18 @@ linepart layout::graph::transform3::part(unsigned dim, const double *val, int le
 	}
 	mpt_linepart_linear(&lp, val, len, &l);
 	
-	if (curr->_flags & TransformLg) {
-		double cut  = lp.cut();
-		double trim = lp.trim();
-		
-		if (cut) cut = log10(cut);
-		if (trim) trim = log10(trim);
-		
-		lp.set_cut(cut);
-		lp.set_trim(trim);
+	// line is drawn in logarithmic scale, get crossing of range limit there
+	if ((curr->_flags & TransformLg) && lp.usr > 1) {
+		if (lp._cut) {
+			const double out = val[0];
+			double part = log10((out < l.min ? l.min : l.max) / out) / log10(val[1] / out);
+			lp.set_cut(part);
+		}
+		if (lp._trim) {
+			const double *end = val + lp.usr - 1;
+			double part = log10((*end < l.min ? l.min : l.max) / *end) / log10(end[-1] / *end);
+			lp.set_trim(part);
+		}
 	}
 	return lp;
 }
